@@ -313,6 +313,17 @@ fn parse_declaration(s: &mut Stream) -> Result<()> {
         Ok(())
     }
 
+    // A pseudo-attribute must have exactly the expected name.
+    fn parse_pseudo_attribute(s: &mut Stream, name: &'static str) -> Result<()> {
+        let start = s.pos();
+        let (prefix, local, _) = parse_attribute(s)?;
+        if !prefix.is_empty() || local != name {
+            return Err(Error::InvalidString(name, s.gen_text_pos_from(start)));
+        }
+
+        Ok(())
+    }
+
     s.advance(5); // <?xml
     consume_spaces(s)?;
 
@@ -321,16 +332,16 @@ fn parse_declaration(s: &mut Stream) -> Result<()> {
         // Will trigger the InvalidString error, which is what we want.
         return s.skip_string(b"version");
     }
-    let _ = parse_attribute(s)?;
+    parse_pseudo_attribute(s, "version")?;
     consume_spaces(s)?;
 
     if s.starts_with(b"encoding") {
-        let _ = parse_attribute(s)?;
+        parse_pseudo_attribute(s, "encoding")?;
         consume_spaces(s)?;
     }
 
     if s.starts_with(b"standalone") {
-        let _ = parse_attribute(s)?;
+        parse_pseudo_attribute(s, "standalone")?;
     }
 
     s.skip_spaces();
